@@ -21,6 +21,23 @@ impl StratSel {
     }
 }
 
+
+/// Some(lane-0 column) when every lane holds exactly the data of lane 0 (bitwise) and there are at least two lanes:
+/// such data can be handed over as a broadcast (stride 0) view
+pub fn broadcastable(data: &[f64], n: usize, lanes: usize) -> Option<Vec<f64>> {
+    if lanes < 2 || n == 0 {
+        return None;
+    }
+    for i in 0..n {
+        for l in 1..lanes {
+            if data[i * lanes + l].to_bits() != data[i * lanes].to_bits() {
+                return None;
+            }
+        }
+    }
+    Some((0..n).map(|i| data[i * lanes]).collect())
+}
+
 #[derive(Clone, Debug)]
 pub struct Case1 {
     pub n: usize,
@@ -86,7 +103,15 @@ impl Case1 {
             let lanes = product(&trailing);
             let vc = val_class(src);
             let sc = scale_exp::<T>(src);
-            let data = values::<T>(src, n * lanes, vc, sc);
+            let mut data = values::<T>(src, n * lanes, vc, sc);
+            // duplicated lanes: every lane holds the data of lane 0 (also handed over as a broadcast view)
+            if lanes >= 2 && src.chance(1, 15) {
+                for i in 0..n {
+                    for l in 1..lanes {
+                        data[i * lanes + l] = data[i * lanes];
+                    }
+                }
+            }
             let dd = if src.chance(1, 5) { DDim::Dyn } else { DDim::of_rank(1 + trailing.len()) };
             let lay = crate::layout::pick_lay(src);
             let xlay = crate::layout::pick_lay(src);
@@ -109,7 +134,16 @@ impl Case1 {
     }
     pub fn build<T: Flt>(&self, extrapolate: bool) -> Result<Box<dyn I1<T>>, Fail> {
         let xo = if self.axis_class == AxisClass::Index { None } else { Some(crate::layout::realise1(arr_1::<T>(&self.x), self.xlay, T::of(-9.0e9))) };
-        match build1::<T>(xo, crate::layout::realise(arr_d::<T>(&self.shape(), &self.data), self.lay, T::of(-3.5e5)), self.dd, &self.strat1::<T>(extrapolate)) {
+        // equal lanes: in half of the cases the data is a broadcast (stride 0) view of its first lane
+        let built = match broadcastable(&self.data, self.n, self.lanes) {
+            Some(col) if crate::common::splitmix(col[0].to_bits()) & 1 == 0 => {
+                let mut bshape = vec![self.n];
+                bshape.extend(self.trailing.iter().map(|_| 1));
+                crate::adapt::build1_bcast::<T>(xo, arr_d::<T>(&bshape, &col), &self.shape(), self.dd, &self.strat1::<T>(extrapolate))
+            }
+            _ => build1::<T>(xo, crate::layout::realise(arr_d::<T>(&self.shape(), &self.data), self.lay, T::of(-3.5e5)), self.dd, &self.strat1::<T>(extrapolate)),
+        };
+        match built {
             Some(Ok(i)) => Ok(i),
             Some(Err(e)) => Err(Fail::new("build-failed", format!("valid input rejected: {e}"))),
             None => Err(Fail::new("oracle-bug", "case not expressible in its dimension type")),
@@ -130,6 +164,9 @@ impl Case1 {
             obs.class("n:41+");
         }
         obs.class(format!("datalayout:{}", self.lay.0.name()));
+        if let Some(col) = broadcastable(&self.data, self.n, self.lanes) {
+            obs.class(if crate::common::splitmix(col[0].to_bits()) & 1 == 0 { "data:broadcast-view" } else { "data:equal-lanes" });
+        }
     }
     pub fn describe<T: Flt>(&self) -> Value {
         json!({"T": T::NAME, "strategy": self.strat.name(), "n": self.n, "axis_class": self.axis_class.name(),
